@@ -5,4 +5,5 @@ pub mod mon;
 pub mod poseidon_consts;
 pub mod props;
 pub mod refmodel;
+pub mod sat;
 pub mod tamper;
